@@ -144,6 +144,25 @@ func seedThenSuffix(info *types.Info, body *ast.BlockStmt, g *cfgq.Graph, co, pr
 	var seedArg ast.Expr
 	var later []ast.Node
 	why := ""
+	// the bytes may be built under one name and handed over to another by a plain
+	// copy of the slice (`state_candidate = candidate`): both names are the same bytes
+	names := map[types.Object]bool{co: true}
+	for changed := true; changed; {
+		changed = false
+		ast.Inspect(body, func(n ast.Node) bool {
+			if as, ok := n.(*ast.AssignStmt); ok && len(as.Lhs) == len(as.Rhs) {
+				for i, l := range as.Lhs {
+					if lo, ro := objOf(info, l), objOf(info, strip(info, as.Rhs[i])); lo != nil && ro != nil && names[lo] && !names[ro] {
+						if _, isSl := ro.Type().Underlying().(*types.Slice); isSl {
+							names[ro], changed = true, true
+						}
+					}
+				}
+			}
+			return true
+		})
+	}
+	isName := func(e ast.Expr) bool { o := objOf(info, e); return o != nil && names[o] }
 	inLoop := func(n ast.Node) bool {
 		for _, a := range core.PathTo(body, n) {
 			switch a.(type) {
@@ -157,14 +176,14 @@ func seedThenSuffix(info *types.Info, body *ast.BlockStmt, g *cfgq.Graph, co, pr
 		switch s := n.(type) {
 		case *ast.AssignStmt:
 			for i, l := range s.Lhs {
-				if ie, isIdx := ast.Unparen(l).(*ast.IndexExpr); isIdx && objOf(info, ie.X) == co {
+				if ie, isIdx := ast.Unparen(l).(*ast.IndexExpr); isIdx && isName(ie.X) {
 					later = append(later, s)
 					if !suffixIndex(info, body, g, s, ie.Index, seedArg) {
 						why = "a byte of the candidate is rewritten at a position that is not visibly behind <prefix>-: " + types.ExprString(l)
 					}
 					continue
 				}
-				if objOf(info, l) != co {
+				if !isName(l) {
 					continue
 				}
 				r := core.AssignedTo(s, i)
@@ -174,13 +193,14 @@ func seedThenSuffix(info *types.Info, body *ast.BlockStmt, g *cfgq.Graph, co, pr
 				case r == nil:
 					why = "the candidate is assigned from a multi-valued call"
 				case core.IsNil(info, r):
+				case isName(strip(info, r)): // the hand-over copy
 				case isCall && isB && b.Name() == "make":
 					if len(call.Args) < 2 {
 						why = "make without a length"
 					} else if k, isC := core.IntConst(info, call.Args[1]); !isC || k != 0 {
 						why = "the candidate is created with pre-filled bytes"
 					}
-				case isCall && isB && b.Name() == "append" && len(call.Args) == 2 && objOf(info, call.Args[0]) == co:
+				case isCall && isB && b.Name() == "append" && len(call.Args) == 2 && objOf(info, call.Args[0]) == objOf(info, l):
 					if call.Ellipsis.IsValid() {
 						if seedAt != nil {
 							why = "more than one chunk is appended to the candidate"
@@ -194,14 +214,14 @@ func seedThenSuffix(info *types.Info, body *ast.BlockStmt, g *cfgq.Graph, co, pr
 				}
 			}
 		case *ast.IncDecStmt:
-			if ie, isIdx := ast.Unparen(s.X).(*ast.IndexExpr); isIdx && objOf(info, ie.X) == co {
+			if ie, isIdx := ast.Unparen(s.X).(*ast.IndexExpr); isIdx && isName(ie.X) {
 				later = append(later, s)
 				if !suffixIndex(info, body, g, s, ie.Index, seedArg) {
 					why = "a byte of the candidate is changed at a position that is not visibly behind <prefix>-"
 				}
 			}
 		case *ast.UnaryExpr:
-			if s.Op == token.AND && objOf(info, s.X) == co {
+			if s.Op == token.AND && isName(s.X) {
 				why = "the address of the candidate is taken"
 			}
 		}
@@ -294,4 +314,41 @@ func orNilExpr15(e ast.Expr) ast.Expr {
 		return &ast.Ident{Name: "_"}
 	}
 	return e
+}
+
+// seedExpr: e is "<prefix>-": fmt.Sprintf("%s-", prefix), prefix + "-",
+// append([]byte(prefix), '-'), or a local holding one of these.
+func seedExpr(info *types.Info, body ast.Node, prefix types.Object, e ast.Expr, depth int) bool {
+	e = strip(info, e)
+	if depth > 3 {
+		return false
+	}
+	switch x := e.(type) {
+	case *ast.CallExpr:
+		if core.IsFunc(core.CalleeFunc(info, x), "fmt", "", "Sprintf") && len(x.Args) == 2 {
+			f, _ := core.StringConst(info, x.Args[0])
+			return f == "%s-" && objOf(info, x.Args[1]) == prefix
+		}
+		// append([]byte(prefix), '-')
+		if b, isB := core.Callee(info, x).(*types.Builtin); isB && b.Name() == "append" && len(x.Args) == 2 && !x.Ellipsis.IsValid() {
+			sep, isC := core.IntConst(info, x.Args[1])
+			return isC && sep == '-' && objOf(info, strip(info, x.Args[0])) == prefix
+		}
+	case *ast.BinaryExpr:
+		sep, isC := core.StringConst(info, x.Y)
+		return x.Op == token.ADD && isC && sep == "-" && objOf(info, strip(info, x.X)) == prefix
+	case *ast.Ident:
+		rhs, other := defsOf(info, body, objOf(info, x))
+		n := 0
+		for _, r := range rhs {
+			if r != nil {
+				n++
+				if !seedExpr(info, body, prefix, r, depth+1) {
+					return false
+				}
+			}
+		}
+		return n == 1 && other == 0
+	}
+	return false
 }
